@@ -250,11 +250,8 @@ impl<'dbg, H: Typed> FatDieRef<'dbg, H> {
     ) -> Option<ObjectBinaryRepr> {
         let die = weak_error!(self.deref())?;
         let location = die.location()?;
-        let location_expr = DwarfLocation(&location).try_as_expression(
-            self.debug_info,
-            self.unit(),
-            ecx.location().global_pc,
-        );
+        let location_expr =
+            DwarfLocation(&location).try_as_expression(self.debug_info, self.unit(), ecx.lookup_pc());
 
         location_expr.and_then(|expr| {
             let evaluator =
@@ -287,7 +284,7 @@ impl<'dbg> FatDieRef<'dbg, Function> {
         let attr = self.deref()?.frame_base().ok_or(NoFBA)?;
 
         let expr = DwarfLocation(&attr)
-            .try_as_expression(self.debug_info, self.unit(), ecx.location().global_pc)
+            .try_as_expression(self.debug_info, self.unit(), ecx.lookup_pc())
             .ok_or(FBANotAnExpression)?;
 
         let evaluator = ref_resolve_unit_call!(self, evaluator, debugee, self.debug_info.dwarf());
